@@ -7,9 +7,11 @@ package main
 
 import (
 	"fmt"
+	"go/constant"
 	"go/token"
 	"go/types"
 	"sort"
+	"strconv"
 	"strings"
 
 	"golang.org/x/tools/go/ssa"
@@ -179,6 +181,9 @@ func (r *rwRT) interp(cfg rwConfig) *Interp {
 		nt, ok := t.(*types.Named)
 		return ok && nt.Obj().Pkg() != nil && nt.Obj().Pkg().Path() == pathRw
 	}
+	// the import declarations of the file under rewriting, for code that scans them itself instead of asking the
+	// imports library: by default the API imported without a name of its own and no import of seq
+	r.setFileImports(in, "")
 	in.OnCall = func(cc *CallCtx) []Answer {
 		if cfg.extra != nil {
 			if a := cfg.extra(cc); a != nil {
@@ -188,6 +193,26 @@ func (r *rwRT) interp(cfg rwConfig) *Interp {
 		fn := cc.Fn
 		if fn == nil {
 			return nil
+		}
+		// the path of a symbolic import spec (imports.SpecPath and the like), the spelling of its name
+		if len(cc.Args) == 1 {
+			if sy, ok := unwrap(cc.Args[0]).(Sym); ok && strings.HasPrefix(sy.Name, "importspec:") && fn.Signature.Results().Len() == 1 {
+				if b, isB := fn.Signature.Results().At(0).Type().Underlying().(*types.Basic); isB && b.Kind() == types.String && strings.Contains(strings.ToLower(fn.Name()), "path") {
+					if v, ok := in.Fields[sy.Name+".path"]; ok {
+						return []Answer{{Ret: []AV{v}, NoEvent: true}}
+					}
+				}
+			}
+			if fn.Name() == "String" && fn.Signature.Recv() != nil && strings.HasSuffix(fn.Signature.Recv().Type().String(), "ast.Ident") {
+				switch x := unwrap(cc.Args[0]).(type) {
+				case Nil:
+					return []Answer{{Ret: []AV{mkString("<nil>")}, NoEvent: true}}
+				case Sym:
+					if v, ok := in.Fields[x.Name+".Name"]; ok {
+						return []Answer{{Ret: []AV{v}, NoEvent: true}}
+					}
+				}
+			}
 		}
 		if inRw(fn) {
 			switch fn.Name() {
@@ -453,4 +478,36 @@ func (r *rwRT) blockMarkMethod() string {
 		}
 	}
 	return ""
+}
+
+// setFileImports describes the import declarations of the file f: the API package imported without a name of its
+// own, and seq absent (""), imported under the alias sq ("imported") or without a name of its own ("default").
+func (r *rwRT) setFileImports(in *Interp, seqScenario string) {
+	coPath, seqPath := r.w.Pkgs[pathRw].Types.Scope().Lookup("pkgCoPath"), r.w.Pkgs[pathRw].Types.Scope().Lookup("pkgSeqPath")
+	cp, sp := "github.com/goghcrow/go-co", pathSeq
+	if c, ok := coPath.(*types.Const); ok {
+		cp = constant.StringVal(c.Val())
+	}
+	if c, ok := seqPath.(*types.Const); ok {
+		sp = constant.StringVal(c.Val())
+	}
+	co := Sym{Name: "importspec:co", NN: true, Uniq: true}
+	in.Fields[co.Name+".path"] = mkString(cp)
+	in.Fields[co.Name+".Path.Value"] = mkString(strconv.Quote(cp))
+	in.Fields[co.Name+".Name"] = Nil{}
+	specs := []AV{co}
+	if seqScenario != "" {
+		sq := Sym{Name: "importspec:seq", NN: true, Uniq: true}
+		in.Fields[sq.Name+".path"] = mkString(sp)
+		in.Fields[sq.Name+".Path.Value"] = mkString(strconv.Quote(sp))
+		if seqScenario == "imported" {
+			id := Sym{Name: "importspec:seq.ident", NN: true}
+			in.Fields[sq.Name+".Name"] = id
+			in.Fields[id.Name+".Name"] = mkString("sq")
+		} else {
+			in.Fields[sq.Name+".Name"] = Nil{}
+		}
+		specs = append(specs, sq)
+	}
+	in.Fields["f.File.Imports"] = SliceV{Elems: specs}
 }
